@@ -626,11 +626,15 @@ Definition SYNSET_CLOSURE_ARGS : list str := [S_ "hypernym"; S_ "instance_hypern
 Definition SYNSET_PATHS_ARGS : list str := [S_ "hypernym"; S_ "similar"; S_ "xrel"].
 
 (* fuel: closure spends one unit per distinct identifier it yields (the identifiers of the rows,
-   plus '*INFERRED*'); a relation path never repeats a set key (the rows, plus at most one
-   inferred synset per ILI, all with the lexicon rowid of the starting synset), and spends one
-   unit per step.  So these bounds are never reached: OutOfFuel is unreachable on real data. *)
+   plus '*INFERRED*').  A relation path never repeats a set key; the keys are the synset rows plus
+   the inferred placeholders, and a placeholder is keyed by (ILI, lexicon rowid): walking through an
+   extension chain a path can meet one placeholder per ILI *and per lexicon*, so the bound is
+   #synsets + #ilis * #synsets (Proofs/RelClosureProofs.v, Synset_relation_paths_total, proves that
+   this suffices; the earlier bound #synsets + #ilis was refuted by a generated case, now in the
+   correspondence corpus as harness/corpus/core_fuel.json). *)
 Definition sense_fuel : nat := S (S (List.length (t_senses d))).
-Definition synset_fuel : nat := S (S (List.length (t_synsets d) + List.length (t_ilis d))).
+Definition synset_fuel : nat :=
+  S (List.length (t_synsets d) + List.length (t_ilis d) * List.length (t_synsets d)).
 
 Definition project_sense (s : Sense) : sx :=
   L [REF_Sense s; sx_of_str (sn_id s); A (sn_lexid s);
